@@ -195,12 +195,12 @@ Theorem packet_tlv_exact_interest_thm nm cfg app sg si est e :
   let need := match app with Some _ => true | None => false end in
   let pre := strip_digest nm in
   let nm1 := if need then pre ++ [mkc 2 zeros32] else pre in
-  int_siginfo sg need = Ok (si, est) -> name_ok pre -> (app = None -> existsb is_digest_comp pre = false) ->
+  int_siginfo sg need = Ok (si, est) -> name_ok pre ->
   iconfig_ok cfg -> signer_ok sg -> signer_int_ok sg -> int_fits nm1 cfg app si est ->
   make_interest sha256 sign nm cfg app sg = Ok e -> walk_packet (concat (e_wire e)) = true.
 Proof.
-  intros need pre nm1 Hsi Hn Hnod Hcfg Hsg Hsgi Hfit Hmk.
-  destruct (interest_roundtrip_thm sha256 sha256_len sign nm cfg app sg si est e Hsi Hn Hnod Hcfg Hsg Hsgi Hfit Hmk)
+  intros need pre nm1 Hsi Hn Hcfg Hsg Hsgi Hfit Hmk.
+  destruct (interest_roundtrip_thm sha256 sha256_len sign nm cfg app sg si est e Hsi Hn Hcfg Hsg Hsgi Hfit Hmk)
     as (svo & Hs0 & Hs1 & Hfin & HW & Hr).
   pose proof (int_siginfo_wf _ _ _ _ Hsi Hsg Hsgi) as Hsiwf.
   assert (HnF : name_ok (e_final e)).
